@@ -183,11 +183,18 @@ OC_FULL = os.environ.get("VERIF_TIER", "quick") == "thorough"
 DOCS_OC = DOCS if os.environ.get("VERIF_TIER", "quick") == "thorough" else [["ab", "c"]]
 SRV_INC = LangServer(_Conn(), vars(cli("fortls").parse_args(["--incremental_sync"])))
 SRV_FULL = LangServer(_Conn(), vars(cli("fortls").parse_args([])))
-for _s in (SRV_INC, SRV_FULL):
+# incremental sync switched on by the configuration file instead of the command line: the client follows the
+# option, so both content changes of a notification must be applied
+SRV_CFG = LangServer(_Conn(), vars(cli("fortls").parse_args([])))
+SRV_CFG._load_config_file_general({"incremental_sync": True})
+# ... and switched off by the file although given on the command line
+SRV_CFG_OFF = LangServer(_Conn(), vars(cli("fortls").parse_args(["--incremental_sync"])))
+SRV_CFG_OFF._load_config_file_general({"incremental_sync": False})
+for _s in (SRV_INC, SRV_FULL, SRV_CFG, SRV_CFG_OFF):
     _s.update_workspace_file = lambda path, **kw: (True, None)
 
 
-def on_change(inc: bool, d: int, sl: int, sc: int, el: int, ec: int, k: int, s0: int, s1: int, sep: int,
+def on_change(inc: bool, via_cfg: bool, d: int, sl: int, sc: int, el: int, ec: int, k: int, s0: int, s1: int, sep: int,
               sl2: int, sc2: int, el2: int, ec2: int, u0: int) -> bool:
     """didChange with two content changes through the real handler
     pre: 0 <= d < len(DOCS_OC) and (sc * 9 + ec * 3 + sep + s0 * 5 + sc2 * 7 + ec2) % NPART == PART
@@ -203,7 +210,7 @@ def on_change(inc: bool, d: int, sl: int, sc: int, el: int, ec: int, k: int, s0:
     lines = list(DOCS_OC[d])
     text = mk_text(k, s0, s1, 0, sep)
     text2 = SEG[u0]
-    srv = SRV_INC if inc else SRV_FULL
+    srv = (SRV_CFG if inc else SRV_CFG_OFF) if via_cfg else (SRV_INC if inc else SRV_FULL)
     f = FortranFile("/w/x.f90")
     f.set_contents(list(lines))
     f.ast = FortranAST(f)
